@@ -96,6 +96,8 @@ var c07IdOps = []c07IdOp{
 		return idField("name", `"  \t"`)(h, j) && idField("login", "")(h, j)
 	}},
 	{"id/name-control-chars", true, true, idField("name", `"a\u0000b"`)},
+	{"id/name-c1-control-chars", true, true, idField("name", `"a\u009bb"`)},
+	{"id/login-c1-control-chars", true, true, idField("login", `"l\u0085"`)},
 	{"id/name-two-lines", true, true, idField("name", `"a\nb"`)},
 	{"id/name-escape-sequence", true, true, idField("name", `"\u001b[31mred"`)},
 	{"id/login-control-chars", true, true, idField("login", `"l\u0007"`)},
@@ -112,6 +114,8 @@ var c07IdOps = []c07IdOp{
 	{"id/nonce-number", true, false, idField("nonce", "1")},
 	{"id/key-broken-armor", true, false, idField("pub_keys", `["-----BEGIN PGP PUBLIC KEY BLOCK-----\n\nnot base64!!\n-----END PGP PUBLIC KEY BLOCK-----"]`)},
 	{"id/key-empty-string", true, false, idField("pub_keys", `[""]`)},
+	{"id/key-null", true, false, idField("pub_keys", `[null]`)},
+	{"id/key-null-after-a-key", true, false, idField("pub_keys", `[null, null]`)},
 	{"id/key-number", true, false, idField("pub_keys", `[5]`)},
 	{"id/key-object", true, false, idField("pub_keys", `{"a":1}`)},
 	{"id/times-not-object", true, false, idField("times", `[1,2]`)},
